@@ -122,6 +122,8 @@ pub enum Op {
     Kill { conn: u8, settle: u8 },
     Yield { n: u8 },
     Sleep { ms: u8 },
+    /// every task of the run continues on the other helper OS thread from here on
+    Migrate,
 }
 
 impl Op {
@@ -145,6 +147,7 @@ impl Op {
             Op::Kill { .. } => "kill",
             Op::Yield { .. } => "yield",
             Op::Sleep { .. } => "sleep",
+            Op::Migrate => "migrate",
         }
     }
 }
@@ -173,6 +176,8 @@ fn gen_key(rng: &mut Rng) -> (u8, u8) {
 }
 
 pub fn generate(rng: &mut Rng, thorough: bool) -> Scenario {
+    // a share of the runs moves between two OS threads (thread-affine state would show)
+    let migrate = rng.permille(120);
     let method = match rng.below(4) {
         0 => Method::Fast,
         1 => Method::Verified,
@@ -268,6 +273,9 @@ pub fn generate(rng: &mut Rng, thorough: bool) -> Scenario {
                 }
             };
             ops.push(op);
+            if migrate && rng.permille(150) {
+                ops.push(Op::Migrate);
+            }
         }
         tasks.push(ops);
     }
